@@ -747,6 +747,10 @@ func (c *evalCtx) call(n *Node) SV {
 		if strings.HasPrefix(a.Sort, "(GSeq") {
 			return SV{T: app("gseq.len", a.T), Sort: "Int"}
 		}
+		if c.qdepth == 0 {
+			// ground length facts (0 <= blen, blen == 0 iff empty) for the byte string the clause talks about
+			e.GroundBytes(a.T)
+		}
 		return SV{T: app("blen", a.T), Sort: "Int"}
 	case "val":
 		a := c.eval(n.Args[0])
